@@ -771,4 +771,7 @@ func runC20(c *Ctx) {
 		os.RemoveAll(d)
 		c.Case("web-mix", L(S("web"), ZI(kk)), L(Zs(flags)), true, "op:web")
 	}
+
+	// ---- end-to-end layer (c20_e2e.go)
+	c20E2E(c)
 }
